@@ -1,5 +1,6 @@
 import XsVerif.Driver.Util
 import XsVerif.Model.Paths
+import XsVerif.Model.Localise
 open Lean XsVerif.Driver XsVerif.Paths
 
 namespace XsVerif.Driver.C19
@@ -31,9 +32,96 @@ def handleRender (j : Json) : Except String Json := do
     return Json.mkObj [("name", pnameStr (renderName ns ⟨← q[0].getStr?, ← q[1].getStr?⟩))]
   else throw "q"
 
+/-! ### fault localisation: `Fault.apply`, `errs` of the table-driven validator, zone predicates -/
+open XsVerif.Localise
+
+def parseNats (j : Json) : Except String (List Nat) := do
+  (← j.getArr?).toList.mapM (·.getNat?)
+
+def parsePairs (j : Json) : Except String (List (String × String)) := do
+  (← j.getArr?).toList.mapM fun p => do
+    let a ← p.getArr?
+    if h : a.size = 2 then pure (← a[0].getStr?, ← a[1].getStr?) else throw "pair"
+
+partial def parseDoc (j : Json) : Except String Doc := do
+  let tag ← getStr j "t"
+  let a ← parsePairs (← j.getObjVal? "a")
+  let x ← getStr j "x"
+  let ch ← (← getArr j "c").toList.mapM parseDoc
+  return .node tag a x ch
+
+partial def docJson : Doc → Json
+  | .node t a x c => Json.mkObj [("t", t), ("a", Json.arr (a.map fun p => Json.arr #[Json.str p.1, Json.str p.2]).toArray),
+      ("x", x), ("c", Json.arr (c.map docJson).toArray)]
+
+def parseFault (j : Json) : Except String Fault := do
+  match ← getStr j "k" with
+  | "relabel" => return .relabel (← parseNats (← j.getObjVal? "p")) (← parsePairs (← j.getObjVal? "a")) (← getStr j "x")
+  | "insert" => return .insert (← parseNats (← j.getObjVal? "q")) (← getNat j "i") (← parseDoc (← j.getObjVal? "c"))
+  | "remove" => return .remove (← parseNats (← j.getObjVal? "q")) (← getNat j "i")
+  | "move" => return .move (← parseNats (← j.getObjVal? "q")) (← getNat j "i") (← getNat j "j")
+  | k => throw s!"fault kind {k}"
+
+def parseOwn (j : Json) : Except String OwnRow := do
+  return { d := ← getNat j "d", tag := ← getStr j "t", attrs := ← parsePairs (← j.getObjVal? "a"),
+           text := ← getStr j "x", names := ← getStrList j "n", pre := ← getStrList j "pre",
+           post := ← getStrList j "post" }
+
+def parseGov (j : Json) : Except String GovRow := do
+  let g := match j.getObjVal? "g" with
+    | .ok v => v.getNat?.toOption
+    | .error _ => none
+  return { d := ← getNat j "d", name := ← getStr j "n", d' := g }
+
+/-- `{"op":"localise","doc":…,"faults":[…],"d0":n,"own":[…],"gov":[…]}`: one answer per fault -/
+def handleLocalise (j : Json) : Except String Json := do
+  let t ← parseDoc (← j.getObjVal? "doc")
+  let fs ← (← getArr j "faults").toList.mapM parseFault
+  let d0 ← getNat j "d0"
+  let own ← (← getArr j "own").toList.mapM parseOwn
+  let gov ← (← getArr j "gov").toList.mapM parseGov
+  let v := tableVal own gov
+  let valid0 := (errs v d0 t).isEmpty
+  let rs := fs.map fun f =>
+    let t' := f.apply t
+    let es := errs v d0 t'
+    let out := es.map fun e => Json.mkObj [("pos", posJson e.1), ("sig", e.2),
+      ("zone", inZone f.damaged e.1), ("near", near f.damaged e.1)]
+    Json.mkObj [("effective", effectiveB v d0 t f),
+      ("mut", docJson t'), ("damaged", posJson f.damaged), ("errs", Json.arr out.toArray)]
+  return Json.mkObj [("valid0", valid0), ("r", Json.arr rs.toArray)]
+
+partial def tJson : T → Json
+  | .node t c => Json.mkObj [("t", t), ("c", Json.arr (c.map tJson).toArray)]
+
+def pathText (pp : String × List Step) : String :=
+  "/" ++ pp.1 ++ String.join (pp.2.map fun s => "/" ++ stepStr s)
+
+/-- `{"op":"lazy","tree":…,"k":n,"done":n,"n":n,"pos":[…]}`: the lazy state, the path computed on it for the
+    position, what that path selects in the full tree, the guard of `lazy_path_exact_partial` -/
+def handleLazy (j : Json) : Except String Json := do
+  let t ← parseT (← j.getObjVal? "tree")
+  let k ← getNat j "k"
+  let done ← getNat j "done"
+  let n ← getNat j "n"
+  let pos ← parseNats (← j.getObjVal? "pos")
+  match lazyState k done n t with
+  | none => return Json.mkObj [("state", Json.null)]
+  | some st =>
+    match getPath st pos with
+    | none => return Json.mkObj [("state", tJson st), ("path", Json.null)]
+    | some pp =>
+      return Json.mkObj [("state", tJson st), ("path", pathText pp),
+        ("sel", Json.arr ((selectAbs t pp).map posJson).toArray),
+        ("complete", completeAlong st t pos), ("pre", pre st t)]
+
 /-- request: a tree and a list of positions; answer per position: the path text and what it selects -/
 def handle (j : Json) : Except String Json := do
   if (j.getObjVal? "render").toOption.isSome then return ← handleRender j
+  match j.getObjValAs? String "op" with
+  | .ok "localise" => return ← handleLocalise j
+  | .ok "lazy" => return ← handleLazy j
+  | _ => pure ()
   let t ← parseT (← j.getObjVal? "tree")
   let ps ← (← getArr j "pos").toList.mapM fun p => do
     let a ← p.getArr?
